@@ -216,6 +216,64 @@ func goParseAnswer(lang syntax.LangVariant, src string) string {
 	return "ok " + s
 }
 
+// goSpecRT evaluates C01's statement on the implementation for a fragment source.
+func goSpecRT(o l4Opts, lang syntax.LangVariant, src string) string {
+	f, err, pan := parseIn(src, lang, syntax.KeepComments(true))
+	if err != nil || pan != "" {
+		return "noparse-src"
+	}
+	cfg := normCfg{minify: o.Minify}
+	want := normDump(f, cfg)
+	out, perr, ppan := o.printNode(f)
+	switch {
+	case ppan != "":
+		return "panic"
+	case perr != nil:
+		return "refused"
+	}
+	f2, err2, pan2 := parseIn(out, lang, syntax.KeepComments(true))
+	if err2 != nil || pan2 != "" {
+		return "reparse-fail"
+	}
+	if _, ok := f0File(f2); !ok {
+		return "reparse-fail" // the output left the fragment (e.g. `((` read as arithmetic)
+	}
+	if normDump(f2, cfg) == want {
+		return "same"
+	}
+	return "diff"
+}
+
+// goSpecIdem evaluates C02's statement on the implementation for a fragment source.
+func goSpecIdem(o l4Opts, lang syntax.LangVariant, src string) string {
+	f, err, pan := parseIn(src, lang, syntax.KeepComments(true))
+	if err != nil || pan != "" {
+		return "noparse-src"
+	}
+	out, perr, ppan := o.printNode(f)
+	switch {
+	case ppan != "":
+		return "panic"
+	case perr != nil:
+		return "refused"
+	}
+	f2, err2, pan2 := parseIn(out, lang, syntax.KeepComments(true))
+	if err2 != nil || pan2 != "" {
+		return "reparse-fail"
+	}
+	if _, ok := f0File(f2); !ok {
+		return "reparse-fail"
+	}
+	out2, perr2, ppan2 := o.printNode(f2)
+	if perr2 != nil || ppan2 != "" {
+		return "panic"
+	}
+	if out2 == out {
+		return "stable"
+	}
+	return "unstable"
+}
+
 // ---------------------------------------------------------------------------------------------
 // generators
 
@@ -572,6 +630,10 @@ func l4Tie(c *Ctx, nGen int, extra []l4Case, noKeepPad bool) {
 			ans2 = "refused"
 		}
 		c.Op("reprint "+o.String()+" "+lang.String()+" "+hx(src), ans2)
+		// the properties' own statements, evaluated on both sides
+		o2 := randOpts(c.R, true)
+		c.Op("specrt "+o2.String()+" "+lang.String()+" "+hx(src), goSpecRT(o2, lang, src))
+		c.Op("specidem "+o2.String()+" "+lang.String()+" "+hx(src), goSpecIdem(o2, lang, src))
 		// scrambled positions
 		if c.R.Chance(50) {
 			f0Scramble(c.R, f, c.R.Chance(70))
